@@ -154,3 +154,13 @@ prop("C11", level="other", runtime=True,
      assumptions=["SQLite commit atomicity and roll-back of uncommitted statements (external)",
                   "the PRAGMA set-up in conn() is not under contract (external calls): covered only by the crash exploration"],
      not_decided=["parallel evaluation (C07)", "death at arbitrary wall-clock instants between the enumerated events: bounded exploration only"])
+prop("C13", level="exploration", runtime=True,
+     explanation="BOUNDED, nothing proved: the designs are built by numpy code (fullfact, pbdesign with Toeplitz / Hankel / Kronecker "
+                 "constructions, bbdesign, gsd) outside the verifier's subset. The defining structure is evaluated at run time on the "
+                 "real generators against independent constructions: full factorials (every combination exactly once, 1..5 factors, "
+                 "arbitrary level lists), Plackett-Burman for EVERY supported factor count 1..23 (only the two bounds, run count the "
+                 "next multiple of four, balanced and pairwise orthogonal columns: complete over that finite domain), Box-Behnken for "
+                 "3..8 factors (exactly the +/- corners of every factor pair at mid-level elsewhere plus one centre run), generalized "
+                 "subset designs (duplicate-free subsets of the full factorial; the r complementary designs of reduction r pairwise "
+                 "disjoint and jointly the whole factorial) for 2..4 factors with 2..5 levels.",
+     assumptions=[], not_decided=["factor counts / level lists / reductions outside the explored ranges"])
